@@ -33,6 +33,7 @@ KF_F33 = "C01:update_pattern_in_schema:TypeError-on-properties-named-pattern-and
 KF_F34 = "C01:transform:enum/const/example-literals-rewritten-as-if-they-were-schemas"
 KF_F35 = "C01:_handle_literal_or_in_quantifier:invalid-quantifier-InternalError-when-minLength>maxLength"
 KF_F36 = "C01:_distribute_length_constraints:zero-remaining-maxLength-treated-as-unbounded"
+KF_F37 = "C01:to_json_schema:readOnly-ignored-when-type-object-is-not-declared"
 KF_F38 = "C01:_find_quantified_end:lazy-or-possessive-suffix-cut-off-in-multi-part-pattern"
 KF_F38B = "C01:_find_quantified_end:escaped-quantifier-character-taken-for-a-quantifier-in-multi-part-pattern"
 KF_F38C = "C01:_handle_anchored_pattern:non-capturing-group-text-out-of-step-with-parse-tree"
@@ -88,7 +89,17 @@ def _forbidden(sub, mode):
     return sub.get("writeOnly") is True or sub.get("x-writeOnly") is True
 
 
+_OAS_CACHE: dict = {}
+
+
 def make_oas_validator(nn: str, mode: str = "request", draft4: bool = True):
+    key = (nn, mode, draft4)
+    if key not in _OAS_CACHE:
+        _OAS_CACHE[key] = _make_oas_validator(nn, mode, draft4)
+    return _OAS_CACHE[key]
+
+
+def _make_oas_validator(nn: str, mode: str = "request", draft4: bool = True):
     base = jsonschema.Draft4Validator if draft4 else jsonschema.Draft202012Validator
 
     def properties(validator, props, instance, schema):
@@ -217,9 +228,8 @@ def detect_variants(chk):
 
 # ---- mechanism 1: conversion -----------------------------------------------------------------------------------------
 
-def classify_conv_violation(chk, drv, schema, nn, conv, v):
-    """narrow signature for `conv` (the real converted schema) accepting `v` that the OpenAPI schema rejects"""
-    # (1) pattern x length merging: does the conversion without quantifier rewriting reject v?
+def classify_pattern(schema, nn, v):
+    """(1) pattern x length merging: does the conversion without quantifier rewriting reject v?"""
     np_ = impl_conv(schema, nn, updq=False)
     if "ok" in np_ and not js_valid(np_["ok"], v):
         strings = []
@@ -236,9 +246,12 @@ def classify_conv_violation(chk, drv, schema, nn, conv, v):
                 if bad:
                     return pattern_signature(p, lo, hi), {"pattern": p, "minLength": lo, "maxLength": hi, "rewritten": new, "string": t}
         return "C01:update_pattern_in_schema:converted-schema-accepts-nonconforming-string", {}
-    # (2) readOnly handling: does the repaired forbid site reject v?
-    rep = drv.one("conv", {"cfg": cfg_for(chk, schema, nn, vForbid="repaired"), "schema": schema, "fuel": 2 * py_depth(schema) + 8})
-    if isinstance(rep, dict) and "__err__" not in rep and not js_valid(rep, v):
+    return None
+
+
+def classify_rest(schema, nn, v, repaired_conv):
+    """(2) readOnly handling: does the repaired forbid site reject v?  (3) literals rewritten by transform"""
+    if isinstance(repaired_conv, dict) and "__err__" not in repaired_conv and not js_valid(repaired_conv, v):
         shapes = []
 
         def fn(d):
@@ -254,15 +267,19 @@ def classify_conv_violation(chk, drv, schema, nn, conv, v):
             return KF_F4, {}
         if "prior-not" in shapes:
             return KF_F4B, {}
-    # (3) literals rewritten by transform
-    lit = []
+    lit, untyped = [], []
 
     def fn2(d):
         for k in ("enum", "const", "example", "examples", "default"):
             if k in d and any(isinstance(x, dict) for x in (d[k] if isinstance(d[k], list) else [d[k]])):
                 lit.append(k)
+        if d.get("type") != "object" and isinstance(d.get("properties"), dict) and \
+                any(isinstance(x, dict) and x.get("readOnly") is True for x in d["properties"].values()):
+            untyped.append(1)
 
     G.walk_dicts(schema, fn2)
+    if untyped:
+        return KF_F37, {}
     if lit:
         return KF_F34, {"keywords": sorted(set(lit))}
     return "C01:to_json_schema:converted-schema-accepts-value-the-openapi-schema-rejects", {}
@@ -359,6 +376,7 @@ def conv_round(chk, drv, items, mechanism):
                                         "fuel": 2 * py_depth(s) + 8}))
             spec_cases.append((s, nn, conv, v))
     specs = drv.batch(spec_reqs)
+    pending = []
     for (s, nn, conv, v), spec in zip(spec_cases, specs):
         if isinstance(spec, dict):
             raise InfraError(f"spec error {spec}")
@@ -374,10 +392,21 @@ def conv_round(chk, drv, items, mechanism):
         chk.case("conv-replay", key=[dumps(s), dumps(v)], nontrivial=acc or spec)
         chk.feature(f"conv-replay:converted={'accepts' if acc else 'rejects'},openapi={'accepts' if spec else 'rejects'}")
         if acc and not spec:
-            sig, extra = classify_conv_violation(chk, drv, s, nn, conv, v)
-            chk.violation(sig, "the converted JSON Schema accepts a value that the OpenAPI schema rejects (request side): "
-                          "positive generation may emit it", {"schema": s, "nullable_name": nn, "converted": conv,
-                                                                "instance": v, **extra})
+            pending.append((s, nn, conv, v))
+    what = ("the converted JSON Schema accepts a value that the OpenAPI schema rejects (request side): positive "
+            "generation may emit it")
+    rest = []
+    for s, nn, conv, v in pending:
+        r = classify_pattern(s, nn, v)
+        if r is not None:
+            chk.violation(r[0], what, {"schema": s, "nullable_name": nn, "converted": conv, "instance": v, **r[1]})
+        else:
+            rest.append((s, nn, conv, v))
+    reps = drv.batch([("conv", {"cfg": cfg_for(chk, s, nn, vForbid="repaired"), "schema": s, "fuel": 2 * py_depth(s) + 8})
+                      for s, nn, _, _ in rest])
+    for (s, nn, conv, v), rep in zip(rest, reps):
+        sig, extra = classify_rest(s, nn, v, rep)
+        chk.violation(sig, what, {"schema": s, "nullable_name": nn, "converted": conv, "instance": v, **extra})
 
 
 def in_spec(s):
@@ -493,7 +522,8 @@ def regex_round(chk, drv, cases, mechanism):
         chk.feature(f"{mechanism}:{'rewritten' if changed else ('error' if isinstance(impl, dict) else 'unchanged')}")
         if text_divergence(p):
             chk.feature(f"{mechanism}:text-divergent-multi-part(outside-the-tree-model)")
-        elif m != impl_tree:
+        elif ({"ok": m["ok"]} if isinstance(m, dict) and "ok" in m else m) != impl_tree or \
+                (changed and not (isinstance(m, dict) and m.get("rewrote"))):
             chk.disagreement(mechanism, {"pattern": p, "minLength": lo, "maxLength": hi}, m, {"text": impl, "tree": impl_tree})
         # replay: the rewritten pattern (which replaces pattern + length keywords) must not admit a string the original
         # constraints reject; judged by Python's `re` on a fixed string pool
